@@ -42,6 +42,8 @@ ASSUME = [
     'white-space other than U+0020, and words in another letter case, are DONT-CARE inputs (statement silent); entropy sizes outside 128..256/32 are not tried',
 ]
 
+SHARD_LINES = 4000   # trace lines per judge run (memory of one TLC process stays small; 16 run at a time)
+
 PARSE = re.compile(r'^<<"(CASE|JUDGE|MUT)", (.*)>>$')
 
 
@@ -85,6 +87,17 @@ class Stats:
         self.runs.append(dict(run=what, states=r.get('distinct', 0), wall_s=round(r['wall'], 1)))
 
 
+def tlc_retry(*a, **k):
+    """vlib.tlc; a TLC process killed from outside (negative rc: another check's timeout handler runs pkill on
+    every TLC of the machine, or the OOM killer) is started again, twice at most"""
+    for attempt in range(3):
+        r = vlib.tlc(*a, **k)
+        if r['rc'] >= 0:
+            break
+        time.sleep(2 + 3 * attempt)
+    return r
+
+
 def parallel(fn, items):
     with concurrent.futures.ThreadPoolExecutor(max_workers=max(1, min(vlib.NPROC, len(items)))) as ex:
         return list(ex.map(fn, items))
@@ -93,7 +106,7 @@ def parallel(fn, items):
 def generate(tier, scratch, binary, st):
     """stages 2-4: returns the path of the cases file and counters"""
     T = TIERS[tier]
-    g = vlib.tlc('Bip39_Gen.cfg', 'Bip39Gen.tla', scratch, overrides={'FullPatterns': T['full'], 'SweepPatterns': T['sweep']}, workers=1, timeout=600)
+    g = tlc_retry('Bip39_Gen.cfg', 'Bip39Gen.tla', scratch, overrides={'FullPatterns': T['full'], 'SweepPatterns': T['sweep']}, workers=1, timeout=600)
     st.add(g, 'Bip39Gen')
     recs = [jstr(x) for x in printed(g['log'], 'CASE')]
     if len(recs) < 5:
@@ -104,7 +117,7 @@ def generate(tier, scratch, binary, st):
     run([binary, 'cs', '-in', g1, '-out', ents, '-seed', str(vlib.seed()), '-random', str(T['random']), '-descs', str(T['descs'])], 'bip39 cs')
     lines = [l for l in open(ents).read().splitlines() if l.strip()]
     # spread the expensive (full / sweep) records over the shards
-    nsh = max(1, min(vlib.NPROC, len(lines)))
+    nsh = max(1, min(len(lines), max(vlib.NPROC, len(lines) // 150)))
     shards = [[] for _ in range(nsh)]
     for i, l in enumerate(lines):
         shards[i % nsh].append(l)
@@ -117,7 +130,7 @@ def generate(tier, scratch, binary, st):
 
     def mut(job):
         k, f, n = job
-        r = vlib.tlc('Bip39_Mut.cfg', 'Bip39Mut.tla', scratch, workers=1, timeout=3000,
+        r = tlc_retry('Bip39_Mut.cfg', 'Bip39Mut.tla', scratch, workers=1, timeout=3000,
                      overrides={'EntFile': q(f), 'OutPrefix': q(os.path.join(mdir, 'cases-%d-' % k)),
                                 'SubstDeltas': T['deltas'], 'SweepN': str(T['sweep_n'])})
         return r
@@ -141,7 +154,7 @@ def generate(tier, scratch, binary, st):
 
 def evaluate(scratch, binary, cases, passes, tag):
     tdir = scratch.sub('trace-' + tag)
-    out = run([binary, 'eval', '-in', cases, '-out-prefix', os.path.join(tdir, 't-'), '-shards', str(vlib.NPROC),
+    out = run([binary, 'eval', '-in', cases, '-out-prefix', os.path.join(tdir, 't-'), '-shards', str(vlib.NPROC), '-max-lines', str(SHARD_LINES),
                '-seed', str(vlib.seed()), '-passes', str(passes)], 'bip39 eval')
     m = re.search(r'EVAL cases=(\d+) lines=(\d+) shards=(\d+) wordlist=(\S+)', out)
     if not m:
@@ -151,7 +164,7 @@ def evaluate(scratch, binary, cases, passes, tag):
 
 def judge(scratch, files, st, strict=False):
     def one(f):
-        return vlib.tlc('Bip39_Trace.cfg', 'Bip39Trace.tla', scratch, workers=1, timeout=3000,
+        return tlc_retry('Bip39_Trace.cfg', 'Bip39Trace.tla', scratch, workers=1, timeout=3000,
                         overrides={'TraceFile': q(f), 'Strict': 'TRUE' if strict else 'FALSE'})
     res = parallel(one, files)
     if strict:
@@ -247,6 +260,9 @@ def binding_demo(scratch, lines, bad_ids):
 
 def check(pid, tier, scratch, replay):
     t0 = time.time()
+    # every TLC run here is single-threaded and small: do not let 16 JVMs each claim a quarter of the machine
+    # (set here, not at import: this module is imported by every check)
+    os.environ.setdefault('JAVA_TOOL_OPTIONS', '-Xmx4g')
     if tier not in TIERS:
         raise Infra('unknown tier %s' % tier)
     T = TIERS[tier]
@@ -264,7 +280,7 @@ def check(pid, tier, scratch, replay):
         counters = dict(cases=len(rp['cases']), replay=os.path.basename(replay))
     else:
         if T['mc']:
-            r = vlib.tlc('Bip39_MC.cfg', 'Bip39MC.tla', scratch, timeout=1500)
+            r = tlc_retry('Bip39_MC.cfg', 'Bip39MC.tla', scratch, timeout=1500)
             st.add(r, 'Bip39MC')
             counters['spec_law_states'] = r.get('distinct', 0)
         cases, c2 = generate(tier, scratch, binary, st)
